@@ -198,7 +198,8 @@ type c03Cfg struct {
 	res         *mc.Result
 	newPlugin   func(cfg *c03Cfg) *Plugin
 	withSync    bool // alphabet contains the controller's runtime sync events
-	depth       int
+	depth       int // depth of the first pass: chosen so that it completes within its share on a busy machine
+	deepDepth   int // > depth: second, opportunistic pass with the time the first pass left over (0 = none)
 	weight      int // share of the unit's time budget
 	memo        *c03Memo
 }
@@ -982,26 +983,40 @@ func c03NewCfg(prefix string, u *c03Universe, runtime, checkParent, withSync boo
 //   - "chain": the chain universe (two ancestors), all four configurations;
 //   - "sync": the tree universe plus the three sync events on the runtime-quota configurations, with the smaller
 //     pod set, because the syncs multiply the number of distinct (stale / refreshed) manager states.
+//
+// Time: the engine discards a BFS level the deadline interrupts, so a too ambitious depth wastes its whole
+// budget. Every part therefore first runs to a depth that completes reliably (pass 1, budget shared by weight,
+// unused time handed on); in the thorough tier the time left over is then spent on re-running parts one level
+// deeper (pass 2, cheapest first); a deeper run replaces the pass-1 result of its part only if it completed.
 func c03Plan(env *mc.Env) []*c03Cfg {
 	var cfgs []*c03Cfg
+	add := func(c *c03Cfg, deep int) {
+		if env.Thorough() && deep > c.depth {
+			c.deepDepth = deep
+		}
+		cfgs = append(cfgs, c)
+	}
+	// cheap parts first: what they do not use is handed on to the expensive ones
 	for _, rt := range []bool{false, true} {
 		for _, cp := range []bool{false, true} {
-			w := 3
-			if rt {
-				w = 6
+			d := env.Pick(5, 7)
+			if rt && env.Thorough() {
+				d = 6
 			}
-			cfgs = append(cfgs, c03NewCfg("hist", c03Tree, rt, cp, false, env.Pick(6, 7), env.Pick(5, 7), w))
+			add(c03NewCfg("chain", c03Chain, rt, cp, rt && env.Thorough(), 4, d, 1+env.Pick(0, 1)), 7)
 		}
 	}
-	for _, rt := range []bool{false, true} {
-		for _, cp := range []bool{false, true} {
-			cfgs = append(cfgs, c03NewCfg("chain", c03Chain, rt, cp, rt && env.Thorough(), 4, env.Pick(5, 7), 1+env.Pick(0, 1)))
-		}
+	for _, cp := range []bool{false, true} {
+		add(c03NewCfg("hist", c03Tree, false, cp, false, env.Pick(6, 7), env.Pick(5, 6), 4), 7)
 	}
 	if env.Thorough() {
-		cfgs = append(cfgs, c03NewCfg("sync", c03Tree, true, false, true, 6, 6, 4), c03NewCfg("sync", c03Tree, true, true, true, 6, 6, 4))
+		add(c03NewCfg("sync", c03Tree, true, false, true, 6, 5, 5), 6)
+		add(c03NewCfg("sync", c03Tree, true, true, true, 6, 5, 5), 6)
 	} else {
-		cfgs = append(cfgs, c03NewCfg("sync", c03Tree, true, true, true, 6, 4, 2))
+		add(c03NewCfg("sync", c03Tree, true, true, true, 6, 4, 4), 0)
+	}
+	for _, cp := range []bool{false, true} {
+		add(c03NewCfg("hist", c03Tree, true, cp, false, env.Pick(6, 7), env.Pick(5, 6), 7), 7)
 	}
 	return cfgs
 }
@@ -1016,7 +1031,7 @@ func c03Assumptions(cfg *c03Cfg) []string {
 	}
 }
 
-func c03RunPart(t *testing.T, env *mc.Env, cfg *c03Cfg, budget time.Duration) {
+func c03RunPart(env *mc.Env, cfg *c03Cfg, depth int, budget time.Duration) *mc.Result {
 	res := mc.NewResult("C03", cfg.part, "bfs")
 	cfg.res = res
 	res.Assumptions = c03Assumptions(cfg)
@@ -1030,14 +1045,14 @@ func c03RunPart(t *testing.T, env *mc.Env, cfg *c03Cfg, budget time.Duration) {
 	penv := mc.LoadEnv() // own clock for this part; results are emitted through the unit's env
 	penv.Budget = budget
 	b := &mc.BFS{Res: res, Env: penv, New: func() mc.System { return c03NewSys(cfg) }, NumOps: len(cfg.ops),
-		OpName: func(i int) string { return cfg.ops[i].name }, MaxDepth: cfg.depth, Repeats: env.Pick(0, 1)}
+		OpName: func(i int) string { return cfg.ops[i].name }, MaxDepth: depth, Repeats: env.Pick(0, 1)}
 	b.Run()
 	if res.Bounds == nil {
 		res.Bounds = map[string]any{}
 	}
 	res.Bounds["pods"] = cfg.nPods
 	res.Bounds["quotas"] = len(cfg.u.quotas)
-	res.Bounds["target_depth"] = cfg.depth
+	res.Bounds["target_depth"] = depth
 	res.Bounds["map_order_repeats"] = b.Repeats
 	res.WallS = penv.Elapsed().Seconds()
 	if env.Replay == "" {
@@ -1047,7 +1062,9 @@ func c03RunPart(t *testing.T, env *mc.Env, cfg *c03Cfg, budget time.Duration) {
 			}
 		}
 	}
-	env.Emit(res)
+	fmt.Printf("c03: part %s target depth %d: completed depth %d, %d states, %d transitions, %d violations, %.1fs %s\n",
+		cfg.part, depth, res.MaxDepth, res.States, res.Transitions, res.NumViolations(), res.WallS, res.Capped)
+	return res
 }
 
 type c03Replay struct {
@@ -1066,7 +1083,7 @@ func TestVerifC03Hist(t *testing.T) {
 		part, _ := env.ReplayData(&rp)
 		for _, cfg := range cfgs {
 			if cfg.part == part {
-				c03RunPart(t, env, cfg, env.Budget)
+				env.Emit(c03RunPart(env, cfg, cfg.depth, env.Budget))
 			}
 		}
 		return
@@ -1089,23 +1106,50 @@ func TestVerifC03Hist(t *testing.T) {
 	if sel("smoke") {
 		c03Smoke(t, env)
 	}
-	left := 0
+	var run []*c03Cfg
 	for _, cfg := range cfgs {
 		if sel(cfg.part) {
+			run = append(run, cfg)
+		}
+	}
+	remaining := func() time.Duration {
+		if r := env.Budget - env.Elapsed(); r > time.Second {
+			return r
+		}
+		return time.Second
+	}
+	// pass 1
+	results := map[string]*mc.Result{}
+	left := 0
+	for _, cfg := range run {
+		left += cfg.weight
+	}
+	for _, cfg := range run {
+		results[cfg.part] = c03RunPart(env, cfg, cfg.depth, remaining()*time.Duration(cfg.weight)/time.Duration(left))
+		left -= cfg.weight
+	}
+	// pass 2: one level deeper with whatever time is left, cheapest (fewest pass-1 states) first
+	var deep []*c03Cfg
+	for _, cfg := range run {
+		if r := results[cfg.part]; cfg.deepDepth > cfg.depth && r.Capped == "" && r.NumViolations() == 0 {
+			deep = append(deep, cfg)
 			left += cfg.weight
 		}
 	}
-	for _, cfg := range cfgs {
-		if !sel(cfg.part) {
-			continue
+	sort.SliceStable(deep, func(i, j int) bool { return results[deep[i].part].States < results[deep[j].part].States })
+	for _, cfg := range deep {
+		if remaining() > 20*time.Second {
+			r := c03RunPart(env, cfg, cfg.deepDepth, remaining()*time.Duration(cfg.weight)/time.Duration(left))
+			if r.MaxDepth > results[cfg.part].MaxDepth || r.NumViolations() > 0 {
+				results[cfg.part] = r
+			} else {
+				results[cfg.part].Diag(fmt.Sprintf("a second pass to depth %d did not complete within the remaining time budget (%s); its partial level is not counted", cfg.deepDepth, r.Capped))
+			}
 		}
-		// a part that finishes early leaves its time to the parts after it
-		remaining := env.Budget - env.Elapsed()
-		if remaining < time.Second {
-			remaining = time.Second
-		}
-		c03RunPart(t, env, cfg, remaining*time.Duration(cfg.weight)/time.Duration(left))
 		left -= cfg.weight
+	}
+	for _, cfg := range run {
+		env.Emit(results[cfg.part])
 	}
 }
 
